@@ -15,7 +15,8 @@ import Bng.Proof.KeyEnc
 
   Known findings (known_findings.json) with their exclusion clauses:
     KF-C06-percpu-scalar  `kfPercpuMaps`             Lookup of a per-CPU map into a single struct
-    D10                   `KeyEnc.d10Fields`         IPv4 byte order (computed from the convention table `KeyEnc.ipFields`)
+    D10                   `KeyEnc.d10Fields`         IPv4 byte order (computed from the convention table `KeyEnc.ipFields`;
+                                                     since /repo ac77db8 also the three leaves `purgeSubscriberState` compares)
     KF-C06-port-order     `KeyEnc.portOrderFields`   transport ports in NAT map keys
   Fixed in /repo during this work (the full theorems of part (A) hold only with the fixes):
     D22  nat.PortBlock NextPort/PortsInUse uint16 vs __u32 (60 vs 64 bytes)      /repo f681642
@@ -365,7 +366,7 @@ theorem d10Fields_eq : d10Fields = [
     ("server_config", "value", "server_ip"), ("subscriber_nat", "key", ""),
     ("subscriber_nat", "value", "block.public_ip"), ("hairpin_ips", "key", ""),
     ("eim_table", "key", "internal_ip"), ("nat_sessions", "key", "src_ip"), ("nat_sessions", "key", "dst_ip"),
-    ("nat_sessions", "value", "orig_ip"), ("nat_sessions", "value", "dest_ip")] := by
+    ("nat_sessions", "value", "orig_ip"), ("nat_sessions", "value", "dest_ip"), ("nat_reverse", "value", "src_ip")] := by
   decide
 
 /-- a transport port `p`: Go marshals the number (low byte first), the NAT program stores the header
@@ -397,15 +398,43 @@ theorem portFields_are_u16_leaves :
   decide
 
 /-- **Coverage of the convention tables** (no name heuristics): EVERY 4-byte and every 2-byte integer leaf of a
-    C record used by a map the Go code touches is classified — an IPv4 leaf (`ipFields`), a port leaf
-    (`portFields`), or one of the explicitly listed plain integers (`plainLeaves`: ids, counters, flags, lengths).
+    C record used by a map the Go code touches is classified — an IPv4 leaf Go writes, looks up, compares or presents
+    (`ipFields`), a port leaf (`portFields`), one of the explicitly listed plain integers (`plainLeaves`: ids,
+    counters, flags, lengths), or an address/port leaf of an entry that Go only carries from `Next` to `Delete`
+    (`carriedLeaves`, kept honest by `carried_leaves_only_iterated`).
     A new or renamed 4- or 2-byte leaf breaks this theorem until somebody decides which it is. -/
 theorem convention_tables_cover_all_u32_u16_leaves :
     ∀ u ∈ mapUses, ∀ sf ∈ (u.cKey.fields.map fun f => ("key", f)) ++ (u.cVal.fields.map fun f => ("value", f)),
       sf.2.kind = Kind.int → sf.2.norm ≠ "_" → (sf.2.width = 4 ∨ sf.2.width = 2) →
         (ipFields.any fun r => r.map == u.map && r.side == sf.1 && r.leaf == sf.2.name) = true ∨
         (portFields.any fun r => r.map == u.map && r.side == sf.1 && r.leaf == sf.2.name) = true ∨
-        (plainLeaves.contains (u.map, sf.1, sf.2.name)) = true := by
+        (plainLeaves.contains (u.map, sf.1, sf.2.name)) = true ∨
+        (carriedLeaves.any fun r => r.map == u.map && r.side == sf.1 && r.leaf == sf.2.name) = true := by
+  decide
+
+/-- the four classes are disjoint: no leaf is classified twice (a carried leaf in particular is in none of the
+    tables that carry a Go-side convention) -/
+theorem convention_tables_disjoint :
+    (∀ r ∈ carriedLeaves, ipField? r.map r.side r.leaf = none ∧
+        (portFields.any fun q => q.map == r.map && q.side == r.side && q.leaf == r.leaf) = false ∧
+        plainLeaves.contains (r.map, r.side, r.leaf) = false) ∧
+    (∀ r ∈ ipFields, (portFields.any fun q => q.map == r.map && q.side == r.side && q.leaf == r.leaf) = false ∧
+        plainLeaves.contains (r.map, r.side, r.leaf) = false) ∧
+    (∀ r ∈ portFields, plainLeaves.contains (r.map, r.side, r.leaf) = false) := by
+  decide
+
+/-- **A carried leaf really is only carried**: on every map that has one, the Go code performs nothing but
+    `MapIterator.Next` and `Delete` (today: nat_reverse, by `purgeSubscriberState`) — it never builds a key or a value
+    for it from an address or a port number.  A future `Lookup`/`Put` on such a map breaks this theorem, and its leaves
+    must then be given a Go-side convention in `ipFields` / `portFields`. -/
+theorem carried_leaves_only_iterated :
+    ∀ r ∈ carriedLeaves, ∀ u ∈ mapUses, u.map = r.map → u.op = "Next" ∨ u.op = "Delete" := by
+  decide
+
+/-- every carried leaf names an integer leaf of the C record of a map the Go code uses: 2 bytes for a port, 4 for an address -/
+theorem carried_are_leaves :
+    ∀ r ∈ carriedLeaves, ∃ u ∈ mapUses, u.map = r.map ∧
+      ∃ f, cLeaf u r.side r.leaf = some f ∧ f.kind = Kind.int ∧ f.width = (if r.port then 2 else 4) := by
   decide
 
 theorem portOrderFields_are_u16_leaves :
@@ -413,5 +442,89 @@ theorem portOrderFields_are_u16_leaves :
       ∃ f, cLeaf u p.2.1 p.2.2 = some f ∧ f.width = 2 ∧ f.kind = Kind.int := by
   decide
 
+/-! ## DeallocateNAT → purgeSubscriberState (/repo ac77db8): Go READS and deletes entries the program wrote -/
+
+/-- **The purge's reads and deletes are in the generated table, with the types the source uses, and they agree with
+    the C declarations**: for each of nat_sessions, nat_reverse and eim_table the translator found the
+    `MapIterator.Next(&k, &v)` of `purgeSubscriberState` and its `Delete(&k)`; the Go key/value types
+    (`natSessionKey` ↔ `struct nat_key`, `NATSession` ↔ `struct nat_session`, `EIMKey` ↔ `struct eim_key`,
+    `EIMMapping` ↔ `struct eim_mapping`) have the size, offsets, widths and leaf names of the C records.
+    (`every_use_agrees` states agreement for ALL uses; this theorem states that THESE uses are among them — if the
+    translator stopped seeing the iteration, or the purge changed its types, it fails.) -/
+theorem purge_iteration_is_covered :
+    ∀ p ∈ [("nat_sessions", "nat.natSessionKey", "nat.NATSession", "nat_key", "nat_session"),
+           ("nat_reverse", "nat.natSessionKey", "nat.natSessionKey", "nat_key", "nat_key"),
+           ("eim_table", "nat.EIMKey", "nat.EIMMapping", "eim_key", "eim_mapping")],
+      (∃ u ∈ mapUses, u.map = p.1 ∧ u.op = "Next" ∧ u.goKey.name = p.2.1 ∧ u.goVal.map (·.name) = some p.2.2.1 ∧
+          u.cKey.name = p.2.2.2.1 ∧ u.cVal.name = p.2.2.2.2 ∧
+          agrees u.goKey u.cKey = true ∧ agreesOpt u.goVal u.cVal = true ∧
+          namesAgree (named u.goKey.fields) (named u.cKey.fields) = true ∧
+          u.goKey.size = u.cKeySize ∧ (u.goVal.map (·.size)) = some u.cValSize) ∧
+      (∃ u ∈ mapUses, u.map = p.1 ∧ u.op = "Delete" ∧ u.goKey.name = p.2.1 ∧ u.cKey.name = p.2.2.2.1 ∧
+          agrees u.goKey u.cKey = true) := by
+  decide
+
+/-- each of the two Go mirrors of `struct nat_key` (the function-local `natKey` of `LookupSession`, the package-level
+    `natSessionKey` of the purge) agrees with the C record: size 16, same offsets, widths and kinds -/
+theorem nat_key_mirrors_agree :
+    ∀ g ∈ goStructs, g.name = "nat.natSessionKey" ∨ g.name = "nat.LookupSession.natKey" →
+      ∀ c ∈ cStructs, c.name = "nat_key" → agrees g c = true := by
+  decide
+
+/-- **Both Go mirrors of `struct nat_key`** — the function-local `natKey` of `LookupSession` and the package-level
+    `natSessionKey` of the purge — **lay every content out exactly as the C record does** (hence as each other): a key
+    read by the iteration and a key built by the lookup are the same 16 bytes for the same field contents. -/
+theorem nat_key_mirrors_same_image :
+    ∀ g ∈ goStructs, g.name = "nat.natSessionKey" ∨ g.name = "nat.LookupSession.natKey" →
+      ∀ c ∈ cStructs, c.name = "nat_key" → ∀ vals : List (List UInt8), image g vals = image c vals :=
+  fun g hg hn c hc hcn => agrees_image g c (nat_key_mirrors_agree g hg hn c hc hcn)
+
+example : (∃ g ∈ goStructs, g.name = "nat.natSessionKey") ∧ (∃ g ∈ goStructs, g.name = "nat.LookupSession.natKey") ∧
+    (∃ c ∈ cStructs, c.name = "nat_key") := by decide
+
+/-- **What the purge selects**: `k.SrcIP == ipToKey(a.b.c.d)` holds for four stored bytes exactly when they are the
+    bytes Go itself writes for a.b.c.d into a `uint32` key — in particular the `subscriber_nat` key it wrote when it
+    allocated NAT for a.b.c.d. -/
+theorem purge_selects_iff_go_key_bytes (a b c d s0 s1 s2 s3 : UInt8) :
+    purgeSelects a b c d [s0, s1, s2, s3] = true ↔ [s0, s1, s2, s3] = ipFieldGo a b c d := by
+  rw [purgeSelects_iff, (ipField_wire a b c d).1]
+  constructor
+  · rintro ⟨rfl, rfl, rfl, rfl⟩; rfl
+  · intro h; injection h with h0 h; injection h with h1 h; injection h with h2 h; injection h with h3 _
+    exact ⟨h0, h1, h2, h3⟩
+
+/-- **The purge is consistent with the entry it belongs to — whatever the byte order.**  nat44_egress copies the raw
+    `ip->saddr` (wire bytes w0 w1 w2 w3) BOTH into the key it looks `subscriber_nat` up with AND into the three leaves
+    the purge compares (`nat_key.src_ip` of the session key and of the reverse value, `eim_key.internal_ip`).  So for
+    every subscriber address a.b.c.d and every wire source: `DeallocateNAT(a.b.c.d)` selects an entry **iff** the
+    flow that created it hit the `subscriber_nat` entry Go wrote for a.b.c.d — the fix of ac77db8 removes exactly the
+    state created through the allocation being released. -/
+theorem purge_follows_subscriber_nat_entry (a b c d w0 w1 w2 w3 : UInt8) :
+    ∀ p ∈ purgeLeaves, (purgeSelects a b c d (ipC p.1 p.2.1 p.2.2 w0 w1 w2 w3) = true ↔
+      ipC "subscriber_nat" "key" "" w0 w1 w2 w3 = ipGo "subscriber_nat" "key" "" a b c d) := by
+  have e0 : ipField? "subscriber_nat" "key" "" = some ⟨"subscriber_nat", "key", "", .host, .wire⟩ := by decide
+  have e1 : ipField? "nat_sessions" "key" "src_ip" = some ⟨"nat_sessions", "key", "src_ip", .host, .wire⟩ := by decide
+  have e2 : ipField? "nat_reverse" "value" "src_ip" = some ⟨"nat_reverse", "value", "src_ip", .host, .wire⟩ := by decide
+  have e3 : ipField? "eim_table" "key" "internal_ip" = some ⟨"eim_table", "key", "internal_ip", .host, .wire⟩ := by decide
+  intro p hp
+  simp only [purgeLeaves, List.mem_cons, List.mem_nil_iff, or_false] at hp
+  rcases hp with rfl | rfl | rfl <;>
+    simp only [ipC, ipGo, e0, e1, e2, e3, ordOf, ipFieldC] <;>
+    exact purge_selects_iff_go_key_bytes a b c d w0 w1 w2 w3
+
+/-- the leaves the purge compares are in the D10 table (Go: host-order integer, program: wire bytes) -/
+theorem purgeLeaves_in_d10Fields : ∀ p ∈ purgeLeaves, p ∈ d10Fields := by decide
+
+/-- …and the D10 consequence for the purge: the sessions of the flows whose source address ON THE WIRE is a.b.c.d are
+    selected by `DeallocateNAT(a.b.c.d)` only for palindromic addresses (in a kernel, those flows never reached the
+    subscriber's `subscriber_nat` entry in the first place: the same finding at the `subscriber_nat` key). -/
+theorem purge_misses_own_wire_address (a b c d : UInt8) :
+    purgeSelects a b c d (ipFieldC a b c d) = true ↔ a = d ∧ b = c := by
+  rw [ipFieldC, purge_selects_iff_go_key_bytes, ← ipFieldC, eq_comm, ipField_agree_iff]
+
+/-- 10.0.1.5: releasing 10.0.1.5 leaves the entries with wire source 10.0.1.5; releasing 5.1.0.10 removes them -/
+theorem purge_D10_witness :
+    purgeSelects 10 0 1 5 (ipFieldC 10 0 1 5) = false ∧ purgeSelects 5 1 0 10 (ipFieldC 10 0 1 5) = true := by
+  decide
 
 end Bng.Spec.C06
